@@ -140,9 +140,8 @@ def run(prop, tier, seed):
                     mand = corpus.MAND[ver]
                     opt = [m for m in corpus.ORDER[ver] if m not in mand]
                     for combo in itertools.product(*[corpus.VALS[ver][m] for m in mand]):
-                        for minor in ([0, 1] if ver == "3" else [-1]):
+                        for minor, shape in [(mi, sh) for mi in ([0, 1] if ver == "3" else [-1]) for sh in ((0, 1, 2, 2, 2, 3) if ver == "2" else (rnd.randrange(4), 2))]:
                             g = dict(zip(mand, combo))
-                            shape = rnd.randrange(4)
                             for m in opt:
                                 # shapes: one or two optional metrics defined; a whole group defined; sparse random
                                 if (shape == 0 and rnd.random() < 0.12) or (shape == 1 and m in opt[:3]) or (shape == 2 and m in opt[3:5]) or (shape == 3 and rnd.random() < 0.4):
